@@ -124,7 +124,15 @@ def run_law(ctx, p):
         elif law == 'antihom':
             lhs, rhs = (X * Y).inv(), Y.inv() * X.inv()
         elif law == 'div':
-            lhs, rhs = X / Y, X * Y.inv()
+            if p.get('drift') and not tw:
+                # operands that are themselves the result of long computations (hundreds of products' worth of rounding: members
+                # to 1e-13, no longer to 100 eps): division is still the product with the inverse
+                for _ in range(int(p['drift'])):
+                    X, Y = X ** 8, Y ** -8
+                lhs, rhs = X / Y, X * Y.inv()
+                sig['drifted'] = True
+            else:
+                lhs, rhs = X / Y, X * Y.inv()
         elif law == 'pow':
             lhs = X ** (np.int64(n) if p.get('npint') else n)      # an integer is an integer, also when it comes out of NumPy
             rhs = X
@@ -512,6 +520,8 @@ def run(ctx):
             p = dict(cls=c, law=law, ops=[operand(rng, c) for _ in range(k)], n=n)
             if law == 'pow' and rng.random() < 0.3:
                 p['npint'] = True
+            if law == 'div' and rng.random() < 0.5:
+                p['drift'] = int(rng.integers(2, 4))
         drive(RUNNERS, ctx, 'law', p)
         if ctx.ncases % 1499 == 1:
             ctx.sample(dict(kind='law', **p))
